@@ -1,7 +1,7 @@
 (** C16 — model of statement redaction: sqlparser.Walk over the regenerated node schema
     (Gen/SqlSchema.v), the normalizer walk that HandleRawSQLQuery/RedactSQLQuery run
-    (sqlparser/normalizer.go: WalkStatement, WalkSelect, convertSQLVal, convertSQLValDedup,
-    convertComparison, sqlToBindvar, newName, GetBindvars), HandleRawSQLQuery's result
+    (sqlparser/normalizer.go: WalkStatement, WalkSelect and what they return to Walk, convertSQLVal,
+    convertSQLValDedup, convertComparison, sqlToBindvar, newName, GetBindvars), HandleRawSQLQuery's result
     (sqlparser/ast_methods.go) and the logging decisions of the firewall
     (acra-censor/acra-censor_implementation.go: HandleQuery, logAllowedQuery, logDeniedQuery) and of the
     two proxies' debug line.  No proofs here.
@@ -188,30 +188,82 @@ Definition convert_comparison (prefix : bytes) (st : nst) (a : attr) (kids : for
   | _ => (st, None)
   end.
 
+(** ---------- what a visit function does with a node and tells Walk ----------
+    Read from the regenerated tables of WalkStatement / WalkSelect (Gen/SqlSchema.v: VISIT_STATEMENT, VISIT_SELECT).
+    [sel]: the current visit function is WalkSelect (dedup mode), else WalkStatement. *)
+Fixpoint find_clause (ty : N) (cs : list vclause) (dflt : vclause) : vclause :=
+  match cs with
+  | [] => dflt
+  | c :: r => if vc_type c =? ty then c else find_clause ty r dflt
+  end.
+
+Definition visit_table (sel : bool) : list vclause := if sel then VISIT_SELECT else VISIT_STATEMENT.
+Definition visit_default (sel : bool) : vclause := if sel then VISIT_SELECT_DEFAULT else VISIT_STATEMENT_DEFAULT.
+
+(** the case of the type switch that a node of type [ty] takes *)
+Definition clause_of (sel : bool) (ty : N) : vclause := find_clause ty (visit_table sel) (visit_default sel).
+
+(** `case *Select: _ = Walk(nz.WalkSelect, node); return false, nil`: the node and everything below it is walked by
+    WalkSelect instead (the node itself is visited again, by WalkSelect); afterwards WalkStatement does not go below
+    it a second time ([visit_tables_modelled], Proofs: that clause returns false).  Result: the visit function in
+    charge of this node and of its subtree, and the clause it takes. *)
+Definition dispatch (sel : bool) (ty : N) : bool * vclause :=
+  let c := clause_of sel ty in
+  match vc_action c with
+  | VA_walk_select => if sel then (sel, c) else (true, clause_of true ty)
+  | _ => (sel, c)
+  end.
+
+(** the first result of the visit function, given what the comparison handler reported *)
+Definition continues (r : vreturn) (handled : bool) : bool :=
+  match r with
+  | VR_continue => true
+  | VR_stop => false
+  | VR_stop_if_handled => negb handled
+  | VR_continue_if_handled => handled
+  | VR_unknown => false
+  end.
+
+(** what the handler of the clause reports: convertComparison after replacing node.Right / leaving the node alone;
+    the other handlers have no result *)
+Definition handled_of (act : vaction) (replaced : bool) : bool :=
+  match act with
+  | VA_convert_comparison => if replaced then CMP_REPORTS_REPLACED else CMP_REPORTS_UNCHANGED
+  | _ => false
+  end.
+
 (** ---------- the walk of the normalizer ----------
-    [sel]: inside a Select (WalkSelect: dedup); a Select met by WalkStatement switches the mode for its subtree.
-    The visit of a node: *SQLVal -> convertSQLVal(Dedup); *ComparisonExpr -> convertComparison. *)
-Definition visit_val (prefix : bytes) (sel : bool) (st : nst) (ty : N) (a : attr) : nst * attr :=
-  if ty =? T_SQLVal then
-    match (if sel then convert_val_dedup prefix st (Node ty a FNil) else convert_val prefix st (Node ty a FNil)) with
-    | (s, Node _ a' _) => (s, a')
-    end
-  else (st, a).
+    The visit of a node: convertSQLVal(Dedup) / convertComparison as the clause says. *)
+Definition visit_val (prefix : bytes) (act : vaction) (st : nst) (ty : N) (a : attr) : nst * attr :=
+  match act with
+  | VA_convert_val => match convert_val prefix st (Node ty a FNil) with (s, Node _ a' _) => (s, a') end
+  | VA_convert_val_dedup => match convert_val_dedup prefix st (Node ty a FNil) with (s, Node _ a' _) => (s, a') end
+  | _ => (st, a)
+  end.
 
-Definition visit_cmp (prefix : bytes) (st : nst) (ty : N) (a : attr) (kids : forest) : nst * option tree :=
-  if ty =? T_ComparisonExpr then convert_comparison prefix st a kids else (st, None).
+Definition visit_cmp (prefix : bytes) (act : vaction) (st : nst) (a : attr) (kids : forest) : nst * option tree :=
+  match act with
+  | VA_convert_comparison => convert_comparison prefix st a kids
+  | _ => (st, None)
+  end.
 
-(** [repl]: the ListArg that replaces node.Right (the first child held by field Right) *)
+Definition is_some {A} (o : option A) : bool := match o with Some _ => true | None => false end.
+
+(** [repl]: the ListArg that replaces node.Right (the first child held by field Right).
+    [go]: the visit function returned kontinue = true for the parent, so Walk calls its walkSubtree; when it
+    returned false the children stay as they are (only node.Right has been replaced by the handler). *)
 Fixpoint norm (prefix : bytes) (sel : bool) (st : nst) (t : tree) {struct t} : nst * tree :=
   match t with
   | Node ty a kids =>
-      let sel' := sel || (ty =? T_Select) in
-      let v := visit_val prefix sel' st ty a in
-      let c := visit_cmp prefix (fst v) ty a kids in
-      let r := norm_kids prefix sel' ty (snd c) (fst c) kids in
+      let d := dispatch sel ty in
+      let act := vc_action (snd d) in
+      let v := visit_val prefix act st ty a in
+      let c := visit_cmp prefix act (fst v) a kids in
+      let go := continues (vc_return (snd d)) (handled_of act (is_some (snd c))) in
+      let r := norm_kids prefix (fst d) ty go (snd c) (fst c) kids in
       (fst r, Node ty (snd v) (snd r))
   end
-with norm_kids (prefix : bytes) (sel : bool) (pty : N) (repl : option tree) (st : nst) (ks : forest) {struct ks} : nst * forest :=
+with norm_kids (prefix : bytes) (sel : bool) (pty : N) (go : bool) (repl : option tree) (st : nst) (ks : forest) {struct ks} : nst * forest :=
   match ks with
   | FNil => (st, FNil)
   | FCons f k r =>
@@ -219,10 +271,10 @@ with norm_kids (prefix : bytes) (sel : bool) (pty : N) (repl : option tree) (st 
         match repl with
         | Some l =>
             if f =? F_ComparisonExpr_Right then (st, l, None)   (* a ListArg: visited, nothing below *)
-            else (if walked pty f then norm prefix sel st k else (st, k), repl)
-        | None => (if walked pty f then norm prefix sel st k else (st, k), None)
+            else (if go && walked pty f then norm prefix sel st k else (st, k), repl)
+        | None => (if go && walked pty f then norm prefix sel st k else (st, k), None)
         end in
-      let y := norm_kids prefix sel pty (snd x) (fst (fst x)) r in
+      let y := norm_kids prefix sel pty go (snd x) (fst (fst x)) r in
       (fst y, FCons f (snd (fst x)) (snd y))
   end.
 
@@ -244,7 +296,7 @@ with bindvars_kids (pty : N) (ks : forest) : list bytes :=
 
 (** sqlparser.Redact(stmt, bv, prefix) *)
 Definition redact (prefix : bytes) (t : tree) : tree :=
-  snd (norm prefix false (mkSt 1 (bindvars t) []) t).
+  snd (norm prefix REDACT_ENTRY_SELECT (mkSt 1 (bindvars t) []) t).
 
 (** ---------- HandleRawSQLQuery ----------
     Parsing itself is not modelled: [parsed] is the parser's answer.  Texts are kept symbolic so that
